@@ -237,6 +237,14 @@ Theorem C05_variable_values_complete : forall E dt, env_ok E = true -> forall si
   bad_variable_value all_fixed E dt defs raw || refusing_hook E = true.
 Proof. exact variable_values_complete. Qed.
 
+(** a converse: the second reason is always fatal (a variable without a run-time value as an item
+    of a list literal never coerces, whatever the types; graphql-js would make the item null) *)
+Theorem C05_absent_item_variable_is_error : forall E dt site argdefs defs args vv,
+  static_ok all_fixed E dt site argdefs defs args = true ->
+  absent_item_variable vv args = true ->
+  forall m, coerce_argument_values all_fixed E dt argdefs args vv <> Ok m.
+Proof. exact absent_item_variable_is_error. Qed.
+
 (** together with no-panic: on a closed schema a validated request without any of the run-time
     reasons IS served, and with the reference coercion *)
 Theorem C05_served_unless_runtime_reason : forall E dt site argdefs defs args raw,
@@ -296,6 +304,7 @@ Print Assumptions C05_request_exact.
 Print Assumptions C05_static_dynamic_agree.
 Print Assumptions C05_argument_values_complete.
 Print Assumptions C05_variable_values_complete.
+Print Assumptions C05_absent_item_variable_is_error.
 Print Assumptions C05_served_unless_runtime_reason.
 Print Assumptions C05_route_independent.
 Print Assumptions C05_validator_types_differ_in_non_null_only.
